@@ -32,9 +32,20 @@ def main():
         sys.exit(1 if again else 0)
     try:
         mod.run(ctx)
-    except Exception:
-        # a crash of the machinery is not a verdict about e3nn: exit 2
-        traceback.print_exc()
+    except Exception as e:
+        tb = traceback.format_exc()
+        print(tb)
+        frames = traceback.extract_tb(e.__traceback__)
+        repo = os.environ.get("E3NN_REPO", "/repo")
+        in_e3nn = [f for f in frames if f.filename.startswith(repo + "/e3nn") or "/site-packages/torch/" in f.filename]
+        if in_e3nn:
+            # the real code raised where the check did not expect it: on the unchanged tree this never happens, so it is a broken
+            # correspondence (the harness could not even run the case) — reported, with the call site, as a violation without input
+            site = next((f for f in reversed(frames) if f.filename.startswith(repo + "/e3nn")), in_e3nn[-1])
+            ctx.violation(f"exception-in-real-code/{os.path.basename(site.filename)}:{site.name}",
+                          {"broken": "the check could not complete: the implementation raised unexpectedly", "exception": repr(e)[:500], "traceback": tb[-4000:]}, False)
+            sys.exit(ctx.finish())
+        # a crash of the machinery itself is not a verdict about e3nn: exit 2
         ctx.log("harness error (no verdict)")
         sys.exit(2)
     sys.exit(ctx.finish())
